@@ -1,6 +1,1277 @@
-//! C12 / C13 workloads for the sched engine (filled in below).
-use crate::acc::Acc;
+//! C12 (single-use values move out at most once) and C13 (lent references stay valid) workloads
+//! for the sched engine: controlled schedules, free-running stress, and plain sequential runs that are
+//! also executed under Miri / valgrind.
 
-pub fn run_child(_what: &str, _args: &[String], _acc: &mut Acc) -> bool {
-    false
+use std::collections::HashSet;
+use std::panic::{catch_unwind, AssertUnwindSafe};
+use std::sync::Mutex;
+use std::task::Poll;
+
+use unimock::*;
+
+use crate::acc::Acc;
+use crate::check::Discrepancy;
+use crate::exec::{classify_payload, Obs};
+use crate::json::{arr, esc, Obj};
+use crate::prng::{fnv, mix3, Rng};
+use crate::sched::{install_hook, next_dfs_prefix, pct_strategy, run_controlled, Strategy};
+use crate::spec::classify_panic;
+use crate::toks::{self, CTok, LMock, TMock, Tok, Val, L, T};
+
+fn arg(args: &[String], name: &str) -> Option<String> {
+    args.iter()
+        .position(|a| a == name)
+        .and_then(|i| args.get(i + 1).cloned())
+}
+
+fn guarded<R>(f: impl FnOnce() -> R) -> Result<R, Obs> {
+    catch_unwind(AssertUnwindSafe(f)).map_err(classify_payload)
+}
+
+// ------------------------------------------------------------------------------------------------
+// C12
+
+#[derive(Clone, Copy, Debug, PartialEq, Eq, Hash)]
+pub enum Shape {
+    Tok,
+    Opt,
+    ResMix,
+    TupMix,
+    OptMix,
+    PollMix,
+    Tup4,
+    CTok,
+    ResC,
+    TupC,
+    PollC,
+    OptC,
+    Tup4C,
+}
+
+const SINGLE_SHAPES: [Shape; 7] = [
+    Shape::Tok,
+    Shape::Opt,
+    Shape::ResMix,
+    Shape::TupMix,
+    Shape::OptMix,
+    Shape::PollMix,
+    Shape::Tup4,
+];
+const CLONE_SHAPES: [Shape; 6] = [
+    Shape::CTok,
+    Shape::ResC,
+    Shape::TupC,
+    Shape::PollC,
+    Shape::OptC,
+    Shape::Tup4C,
+];
+
+#[derive(Clone, Copy, Debug, PartialEq, Eq, Hash)]
+pub enum Setup {
+    /// `some_call(..).returns(v)`
+    SomePlain,
+    /// `some_call(..).returns(v).once()`
+    SomeOnce,
+    /// `next_call(..).returns(v)`
+    NextPlain,
+    /// `next_call(..).returns(v).once()`
+    NextOnce,
+    /// `some_call(..).returns(v).once().then().panics("later")`
+    SomeOnceThenPanics,
+    /// `each_call(..).returns(v)` (needs Clone)
+    Each,
+    /// `some_call(..).returns(v).n_times(k)` (needs Clone)
+    SomeN(usize),
+    /// `each_call(..).returns(v).at_least_times(k)`
+    EachAtLeast(usize),
+}
+
+#[derive(Clone, Debug, PartialEq, Eq, Hash)]
+pub struct C12Case {
+    pub shape: Shape,
+    pub setup: Setup,
+    /// (own clone?, number of requests, keep the delivered values until the end of the thread?)
+    pub threads: Vec<(bool, usize, bool)>,
+}
+
+impl std::fmt::Display for C12Case {
+    fn fmt(&self, f: &mut std::fmt::Formatter<'_>) -> std::fmt::Result {
+        write!(f, "{:?} via {:?};", self.shape, self.setup)?;
+        for (i, (c, n, keep)) in self.threads.iter().enumerate() {
+            write!(
+                f,
+                " T{i}({}{}): {n} requests |",
+                if *c { "clone" } else { "&shared" },
+                if *keep { ",keeps" } else { "" }
+            )?;
+        }
+        Ok(())
+    }
+}
+
+impl C12Case {
+    pub fn hash64(&self) -> u64 {
+        fnv(format!("{self:?}").as_bytes())
+    }
+    fn repeatable(&self) -> bool {
+        CLONE_SHAPES.contains(&self.shape)
+    }
+}
+
+pub fn gen_c12(rng: &mut Rng, max_threads: usize, max_requests: usize) -> C12Case {
+    let repeatable = rng.chance(1, 3);
+    let shape = if repeatable {
+        *rng.pick(&CLONE_SHAPES)
+    } else {
+        *rng.pick(&SINGLE_SHAPES)
+    };
+    let setup = if repeatable {
+        match rng.below(3) {
+            0 => Setup::Each,
+            1 => Setup::SomeN(rng.range(1, 4)),
+            _ => Setup::EachAtLeast(rng.below(3)),
+        }
+    } else {
+        *rng.pick(&[
+            Setup::SomePlain,
+            Setup::SomeOnce,
+            Setup::NextPlain,
+            Setup::NextOnce,
+            Setup::SomeOnceThenPanics,
+        ])
+    };
+    let n = rng.range(1, max_threads);
+    let threads = (0..n)
+        .map(|_| (rng.chance(1, 2), rng.below(max_requests + 1), rng.chance(1, 2)))
+        .collect();
+    C12Case {
+        shape,
+        setup,
+        threads,
+    }
+}
+
+/// What one request produced: ids of the owned leaves delivered, or a panic
+#[derive(Debug, Clone)]
+pub enum Req {
+    Delivered(Vec<u32>),
+    Panic(String),
+    Other(String),
+}
+
+pub struct C12Trace {
+    /// ids of the owned leaves that were configured
+    pub leaves: Vec<u32>,
+    pub reqs: Vec<(usize, Req)>,
+    /// delivered ids that were found already dropped at delivery time
+    pub dropped_on_delivery: Vec<u32>,
+    pub drops_before_final: Vec<u32>,
+    pub final_obs: Obs,
+    pub exec: crate::sched::ExecInfo,
+}
+
+macro_rules! clause_for {
+    ($mockfn:expr, $setup:expr, $value:expr, single) => {{
+        let m = &|m: &mut unimock::private::Matching<_>| m.func(|_, _| true);
+        let mut c = unimock::verif::DynClause::new();
+        match $setup {
+            Setup::SomePlain => c.push($mockfn.some_call(m).returns($value)),
+            Setup::SomeOnce => c.push($mockfn.some_call(m).returns($value).once()),
+            Setup::NextPlain => c.push($mockfn.next_call(m).returns($value)),
+            Setup::NextOnce => c.push($mockfn.next_call(m).returns($value).once()),
+            Setup::SomeOnceThenPanics => {
+                c.push($mockfn.some_call(m).returns($value).once().then().panics("later"))
+            }
+            other => panic!("generator bug: {other:?} needs Clone"),
+        }
+        c
+    }};
+    ($mockfn:expr, $setup:expr, $value:expr, multi) => {{
+        let m = &|m: &mut unimock::private::Matching<_>| m.func(|_, _| true);
+        let mut c = unimock::verif::DynClause::new();
+        match $setup {
+            Setup::Each => c.push($mockfn.each_call(m).returns($value)),
+            Setup::SomeN(k) => c.push($mockfn.some_call(m).returns($value).n_times(k)),
+            Setup::EachAtLeast(k) => c.push($mockfn.each_call(m).returns($value).at_least_times(k)),
+            other => panic!("generator bug: {other:?} is a single-use setup"),
+        }
+        c
+    }};
+}
+
+fn build_c12(case: &C12Case) -> (Unimock, Vec<u32>) {
+    let s = case.setup;
+    let (clause, leaves) = match case.shape {
+        Shape::Tok => {
+            let t = Tok::new();
+            let ids = vec![t.id];
+            (clause_for!(TMock::t_tok, s, t, single), ids)
+        }
+        Shape::Opt => {
+            let t = Tok::new();
+            let ids = vec![t.id];
+            (clause_for!(TMock::t_opt, s, Some(t), single), ids)
+        }
+        Shape::ResMix => {
+            let t = Tok::new();
+            let ids = vec![t.id];
+            (clause_for!(TMock::t_res_mix, s, Err::<&str, _>(t), single), ids)
+        }
+        Shape::TupMix => {
+            let t = Tok::new();
+            let ids = vec![t.id];
+            (clause_for!(TMock::t_tup_mix, s, (t, "lent"), single), ids)
+        }
+        Shape::OptMix => {
+            let t = Tok::new();
+            let ids = vec![t.id];
+            (clause_for!(TMock::t_opt_mix, s, Some(Err::<&str, _>(t)), single), ids)
+        }
+        Shape::PollMix => {
+            let t = Tok::new();
+            let ids = vec![t.id];
+            (
+                clause_for!(TMock::t_poll_mix, s, Poll::Ready(Err::<&str, _>(t)), single),
+                ids,
+            )
+        }
+        Shape::Tup4 => {
+            let (a, b) = (Tok::new(), Tok::new());
+            let ids = vec![a.id, b.id];
+            (clause_for!(TMock::t_tup4, s, (Val::new(), a, "lent", b), single), ids)
+        }
+        Shape::CTok => {
+            let t = CTok::new();
+            let ids = vec![t.id];
+            (clause_for!(TMock::t_ctok, s, t, multi), ids)
+        }
+        Shape::ResC => {
+            let t = CTok::new();
+            let ids = vec![t.id];
+            (clause_for!(TMock::t_res_c, s, Err::<&str, _>(t), multi), ids)
+        }
+        Shape::TupC => {
+            let t = CTok::new();
+            let ids = vec![t.id];
+            (clause_for!(TMock::t_tup_c, s, (t, "lent"), multi), ids)
+        }
+        Shape::PollC => {
+            let t = CTok::new();
+            let ids = vec![t.id];
+            (
+                clause_for!(TMock::t_poll_c, s, Poll::Ready(Err::<&str, _>(t)), multi),
+                ids,
+            )
+        }
+        Shape::OptC => {
+            let t = CTok::new();
+            let ids = vec![t.id];
+            (clause_for!(TMock::t_opt_c, s, Some(Err::<&str, _>(t)), multi), ids)
+        }
+        Shape::Tup4C => {
+            let (a, b) = (CTok::new(), CTok::new());
+            let ids = vec![a.id, b.id];
+            (clause_for!(TMock::t_tup4_c, s, (Val::new(), a, "lent", b), multi), ids)
+        }
+    };
+    (Unimock::new(clause), leaves)
+}
+
+/// The delivered value, kept alive by the caller
+enum Held {
+    Tok(#[allow(dead_code)] Tok),
+    Opt(#[allow(dead_code)] Option<Tok>),
+    Two(#[allow(dead_code)] Tok, #[allow(dead_code)] Tok),
+    C(#[allow(dead_code)] CTok),
+    TwoC(#[allow(dead_code)] CTok, #[allow(dead_code)] CTok),
+}
+
+fn request(u: &Unimock, shape: Shape) -> Result<(Vec<u32>, Held), String> {
+    Ok(match shape {
+        Shape::Tok => {
+            let t = u.t_tok(0);
+            (vec![t.id], Held::Tok(t))
+        }
+        Shape::Opt => {
+            let t = u.t_opt(0);
+            (t.iter().map(|t| t.id).collect(), Held::Opt(t))
+        }
+        Shape::ResMix => match u.t_res_mix(0) {
+            Err(t) => (vec![t.id], Held::Tok(t)),
+            Ok(s) => return Err(format!("Ok({s:?}) instead of the configured Err")),
+        },
+        Shape::TupMix => {
+            let (t, s) = u.t_tup_mix(0);
+            if s != "lent" {
+                return Err(format!("borrowed leaf {s:?}"));
+            }
+            (vec![t.id], Held::Tok(t))
+        }
+        Shape::OptMix => match u.t_opt_mix(0) {
+            Some(Err(t)) => (vec![t.id], Held::Tok(t)),
+            other => return Err(format!("{other:?} instead of Some(Err(..))")),
+        },
+        Shape::PollMix => match u.t_poll_mix(0) {
+            Poll::Ready(Err(t)) => (vec![t.id], Held::Tok(t)),
+            other => return Err(format!("{other:?} instead of Ready(Err(..))")),
+        },
+        Shape::Tup4 => {
+            let (v, a, s, b) = u.t_tup4(0);
+            if !v.intact() || s != "lent" {
+                return Err("borrowed leaves damaged".into());
+            }
+            (vec![a.id, b.id], Held::Two(a, b))
+        }
+        Shape::CTok => {
+            let t = u.t_ctok(0);
+            (vec![t.id], Held::C(t))
+        }
+        Shape::ResC => match u.t_res_c(0) {
+            Err(t) => (vec![t.id], Held::C(t)),
+            Ok(s) => return Err(format!("Ok({s:?}) instead of the configured Err")),
+        },
+        Shape::TupC => {
+            let (t, s) = u.t_tup_c(0);
+            if s != "lent" {
+                return Err(format!("borrowed leaf {s:?}"));
+            }
+            (vec![t.id], Held::C(t))
+        }
+        Shape::PollC => match u.t_poll_c(0) {
+            Poll::Ready(Err(t)) => (vec![t.id], Held::C(t)),
+            other => return Err(format!("{other:?} instead of Ready(Err(..))")),
+        },
+        Shape::OptC => match u.t_opt_c(0) {
+            Some(Err(t)) => (vec![t.id], Held::C(t)),
+            other => return Err(format!("{other:?} instead of Some(Err(..))")),
+        },
+        Shape::Tup4C => {
+            let (v, a, s, b) = u.t_tup4_c(0);
+            if !v.intact() || s != "lent" {
+                return Err("borrowed leaves damaged".into());
+            }
+            (vec![a.id, b.id], Held::TwoC(a, b))
+        }
+    })
+}
+
+pub fn run_c12(case: &C12Case, strategy: Option<Strategy>) -> C12Trace {
+    toks::reset();
+    let (original, leaves) = build_c12(case);
+    let clones: Vec<Option<Unimock>> = case
+        .threads
+        .iter()
+        .map(|t| if t.0 { Some(original.clone()) } else { None })
+        .collect();
+    let reqs: Mutex<Vec<(usize, Req)>> = Mutex::new(vec![]);
+    let dropped_on_delivery: Mutex<Vec<u32>> = Mutex::new(vec![]);
+    let barrier = std::sync::Barrier::new(case.threads.len());
+    let free = strategy.is_none();
+    let shape = case.shape;
+
+    let mut bodies: Vec<Box<dyn FnOnce() + Send + '_>> = vec![];
+    for (tid, (_, n, keep)) in case.threads.iter().copied().enumerate() {
+        let inst: &Unimock = clones[tid].as_ref().unwrap_or(&original);
+        let reqs = &reqs;
+        let dropped_on_delivery = &dropped_on_delivery;
+        let barrier = &barrier;
+        bodies.push(Box::new(move || {
+            if free {
+                barrier.wait();
+            }
+            let mut kept: Vec<Held> = vec![];
+            for _ in 0..n {
+                let r = guarded(|| request(inst, shape));
+                let rec = match r {
+                    Ok(Ok((ids, held))) => {
+                        for id in &ids {
+                            if toks::drops(*id) != 0 {
+                                dropped_on_delivery.lock().unwrap().push(*id);
+                            }
+                        }
+                        if keep {
+                            kept.push(held);
+                        } else {
+                            drop(held);
+                        }
+                        Req::Delivered(ids)
+                    }
+                    Ok(Err(why)) => Req::Other(why),
+                    Err(Obs::PanicString(m)) => Req::Panic(m),
+                    Err(o) => Req::Other(format!("{o:?}")),
+                };
+                reqs.lock().unwrap().push((tid, rec));
+            }
+            drop(kept);
+        }));
+    }
+    let exec = match strategy {
+        Some(s) => run_controlled(bodies, s),
+        None => {
+            std::thread::scope(|scope| {
+                for b in bodies {
+                    scope.spawn(b);
+                }
+            });
+            Default::default()
+        }
+    };
+    for c in clones.into_iter().flatten() {
+        let _ = guarded(move || drop(c));
+    }
+    // the state shared by all instances is now only held by the original
+    let drops_before_final = leaves.iter().map(|id| toks::drops(*id)).collect();
+    let final_obs = match guarded(move || drop(original)) {
+        Ok(()) => Obs::Silent,
+        Err(o) => o,
+    };
+    C12Trace {
+        leaves,
+        reqs: reqs.into_inner().unwrap(),
+        dropped_on_delivery: dropped_on_delivery.into_inner().unwrap(),
+        drops_before_final,
+        final_obs,
+        exec,
+    }
+}
+
+pub fn check_c12(case: &C12Case, t: &C12Trace) -> Option<Discrepancy> {
+    let d = |at: &str, expected: String, observed: String| {
+        Some(Discrepancy {
+            props: vec!["C12"],
+            at: at.into(),
+            expected,
+            observed,
+        })
+    };
+    if let Some((tid, Req::Other(why))) = t.reqs.iter().find(|(_, r)| matches!(r, Req::Other(_))) {
+        return d(
+            "request",
+            "the configured value or a mock panic".into(),
+            format!("thread {tid}: {why}"),
+        );
+    }
+    if !t.dropped_on_delivery.is_empty() {
+        return d(
+            "delivery",
+            "a live value".into(),
+            format!("values {:?} were already dropped when delivered", t.dropped_on_delivery),
+        );
+    }
+    let total: usize = t.reqs.len();
+    let delivered: Vec<&Vec<u32>> = t
+        .reqs
+        .iter()
+        .filter_map(|(_, r)| match r {
+            Req::Delivered(ids) => Some(ids),
+            _ => None,
+        })
+        .collect();
+    let infos = toks::all_infos();
+
+    if !case.repeatable() {
+        // at most one caller gets the value(s); every other request panics
+        for leaf in &t.leaves {
+            let n = delivered.iter().filter(|ids| ids.contains(leaf)).count();
+            if n > 1 {
+                return d(
+                    "deliveries",
+                    format!("single-use value {leaf} handed to at most one caller"),
+                    format!("{n} callers received it: {:?}", t.reqs),
+                );
+            }
+        }
+        let want = if total >= 1 { 1 } else { 0 };
+        if delivered.len() != want {
+            return d(
+                "deliveries",
+                format!("{want} successful request(s) out of {total}, every other one panicking"),
+                format!("{} succeeded: {:?}", delivered.len(), t.reqs),
+            );
+        }
+        for ids in &delivered {
+            let mut got = (*ids).clone();
+            got.sort();
+            let mut want = t.leaves.clone();
+            want.sort();
+            if got != want {
+                return d(
+                    "delivery",
+                    format!("the configured leaves {want:?}"),
+                    format!("{got:?} (a value that was never configured, or only part of it)"),
+                );
+            }
+        }
+        for (tid, r) in &t.reqs {
+            if let Req::Panic(m) = r {
+                if classify_panic(m).is_none() {
+                    return d("request", "a mock-induced panic".into(), format!("thread {tid}: {m}"));
+                }
+            }
+        }
+        // not dropped early: an undelivered value lives as long as the shared state
+        if total == 0 && t.drops_before_final.iter().any(|n| *n != 0) {
+            return d(
+                "before the last instance is dropped",
+                "the never requested value still alive".into(),
+                format!("drop counts {:?}", t.drops_before_final),
+            );
+        }
+    } else {
+        for ids in &delivered {
+            if ids.len() != t.leaves.len() {
+                return d(
+                    "delivery",
+                    format!("{} owned leaves", t.leaves.len()),
+                    format!("{ids:?}"),
+                );
+            }
+            for (pos, id) in ids.iter().enumerate() {
+                let original = t.leaves[pos];
+                let parent = infos.get(*id as usize).and_then(|i| i.parent);
+                if parent != Some(original) {
+                    return d(
+                        "delivery",
+                        format!("a clone of the stored original (id {original})"),
+                        format!("value {id} with parent {parent:?}"),
+                    );
+                }
+            }
+        }
+        if t.drops_before_final.iter().any(|n| *n != 0) {
+            return d(
+                "before the last instance is dropped",
+                "the stored originals intact".into(),
+                format!("drop counts {:?}", t.drops_before_final),
+            );
+        }
+        let k = match case.setup {
+            Setup::SomeN(k) => Some(k),
+            _ => None,
+        };
+        let ok_expected = k.map(|k| k.min(total));
+        if let Some(k) = ok_expected {
+            // beyond n_times the behaviour is not defined by the property; up to it every request succeeds
+            if delivered.len() < k {
+                return d(
+                    "deliveries",
+                    format!("at least {k} successful requests"),
+                    format!("{}", delivered.len()),
+                );
+            }
+        } else if delivered.len() != total {
+            return d(
+                "deliveries",
+                format!("all {total} requests succeed"),
+                format!("{} succeeded: {:?}", delivered.len(), t.reqs),
+            );
+        }
+    }
+    // conservation: everything constructed has been dropped exactly once by now
+    for (id, i) in infos.iter().enumerate() {
+        if i.drops != 1 {
+            return d(
+                "after everything is dropped",
+                "every constructed value dropped exactly once".into(),
+                format!(
+                    "value {id} (parent {:?}) was dropped {} times; leaves {:?}",
+                    i.parent, i.drops, t.leaves
+                ),
+            );
+        }
+    }
+    None
+}
+
+// ------------------------------------------------------------------------------------------------
+// C13
+
+#[derive(Clone, Copy, Debug, PartialEq, Eq, Hash)]
+pub enum LendOp {
+    /// `make_ref(Val)` directly
+    MakeRefVal,
+    /// `make_ref(u64)` / `make_ref(String)`: other types in the same chain
+    MakeRefU64,
+    MakeRefString,
+    /// `l_ref(1)`: answered by a function calling `make_ref`
+    CallAnswerRef,
+    /// `l_ref(0)`: answered by `returns(Val)` (value stored in the shared pattern)
+    CallReturnsRef,
+    /// `l_opt(0)`: `returns(Some(Val))`
+    CallReturnsOpt,
+    /// `l_str(0)`
+    CallReturnsStr,
+    /// `l_default(1)`: the default body runs on the delegation helper and calls l_ref(1)
+    CallViaDefault,
+    /// `make_mut(Val)`: needs exclusive access, ends the current borrow phase
+    MakeMut,
+    /// `l_mut(0)`: answered by a function calling `make_mut`
+    CallAnswerMut,
+    /// `l_touch(3)`: a `&mut self` provided method (delegation helper through `as_mut`) that lends nothing:
+    /// needs exclusive access but releases nothing
+    TouchMut,
+}
+
+const SHARED_OPS: [LendOp; 8] = [
+    LendOp::MakeRefVal,
+    LendOp::MakeRefU64,
+    LendOp::MakeRefString,
+    LendOp::CallAnswerRef,
+    LendOp::CallReturnsRef,
+    LendOp::CallReturnsOpt,
+    LendOp::CallReturnsStr,
+    LendOp::CallViaDefault,
+];
+
+fn lending_mock() -> (Unimock, Vec<u32>) {
+    let shared_a = Val::new();
+    let shared_b = Val::new();
+    let ids = vec![shared_a.id, shared_b.id];
+    let u = Unimock::new((
+        LMock::l_ref
+            .each_call(matching!(0))
+            .returns(shared_a),
+        LMock::l_ref
+            .each_call(matching!(_))
+            .answers(&|u: &Unimock, _x: u8| u.make_ref(Val::new())),
+        LMock::l_opt.each_call(matching!(_)).returns(Some(shared_b)),
+        LMock::l_str.each_call(matching!(_)).returns("shared string".to_string()),
+        LMock::l_mut
+            .each_call(matching!(_))
+            .answers(&|u: &mut Unimock, _x: u8| u.make_mut(Val::new())),
+        LMock::l_num.each_call(matching!(_)).returns(41u32),
+    ))
+    .no_verify_in_drop();
+    (u, ids)
+}
+
+enum LiveRef<'a> {
+    Val { r: &'a Val, addr: usize, id: u32, chain: bool },
+    U64 { r: &'a u64, addr: usize, v: u64 },
+    Str { r: &'a str, addr: usize, v: String },
+}
+
+fn validate(live: &[LiveRef<'_>], released: &HashSet<u32>) -> Result<(), String> {
+    let mut chain_addrs = HashSet::new();
+    for l in live {
+        match l {
+            LiveRef::Val { r, addr, id, chain } => {
+                if *r as *const Val as usize != *addr {
+                    return Err(format!("reference to value {id} moved"));
+                }
+                if r.id != *id || !r.intact() {
+                    return Err(format!(
+                        "reference lent for value {id} now shows id {} payload intact={}",
+                        r.id,
+                        r.intact()
+                    ));
+                }
+                if toks::drops(*id) != 0 && !released.contains(id) {
+                    return Err(format!("value {id} was dropped while still borrowed"));
+                }
+                if *chain && !chain_addrs.insert(*addr) {
+                    return Err(format!("two live lent values share the address of value {id}"));
+                }
+            }
+            LiveRef::U64 { r, addr, v } => {
+                if *r as *const u64 as usize != *addr || **r != *v {
+                    return Err(format!("lent u64 {v} changed to {}", **r));
+                }
+                if !chain_addrs.insert(*addr) {
+                    return Err("two live lent values share an address".into());
+                }
+            }
+            LiveRef::Str { r, addr, v } => {
+                if r.as_ptr() as usize != *addr || *r != v.as_str() {
+                    return Err(format!("lent string {v:?} changed to {r:?}"));
+                }
+            }
+        }
+    }
+    Ok(())
+}
+
+/// One borrow phase on one instance: shared operations, all references re-validated after every step.
+/// Returns the ids lent from the instance's own chain.
+fn shared_phase(
+    u: &Unimock,
+    ops: &[LendOp],
+    released: &HashSet<u32>,
+    steps_done: &mut u64,
+) -> Result<Vec<u32>, String> {
+    let mut live: Vec<LiveRef<'_>> = vec![];
+    let mut chain_ids = vec![];
+    for (i, op) in ops.iter().enumerate() {
+        match op {
+            LendOp::MakeRefVal => {
+                let v = Val::new();
+                let id = v.id;
+                let r = u.make_ref(v);
+                chain_ids.push(id);
+                live.push(LiveRef::Val { r, addr: r as *const Val as usize, id, chain: true });
+            }
+            LendOp::MakeRefU64 => {
+                let v = 0xA000_0000u64 + i as u64;
+                let r = u.make_ref(v);
+                live.push(LiveRef::U64 { r, addr: r as *const u64 as usize, v });
+            }
+            LendOp::MakeRefString => {
+                let v = format!("string #{i}");
+                let r: &String = u.make_ref(v.clone());
+                live.push(LiveRef::Str { r: r.as_str(), addr: r.as_ptr() as usize, v });
+            }
+            LendOp::CallAnswerRef | LendOp::CallViaDefault => {
+                let r = if *op == LendOp::CallAnswerRef { u.l_ref(1) } else { u.l_default(1) };
+                let id = r.id;
+                if toks::info(id).created_at == 0 {
+                    return Err("answer returned a value unknown to the registry".into());
+                }
+                chain_ids.push(id);
+                // values lent through the delegation helper live in the helper's chain
+                live.push(LiveRef::Val { r, addr: r as *const Val as usize, id, chain: true });
+            }
+            LendOp::CallReturnsRef => {
+                let r = u.l_ref(0);
+                live.push(LiveRef::Val { r, addr: r as *const Val as usize, id: r.id, chain: false });
+            }
+            LendOp::CallReturnsOpt => match u.l_opt(0) {
+                Some(r) => live.push(LiveRef::Val { r, addr: r as *const Val as usize, id: r.id, chain: false }),
+                None => return Err("l_opt returned None instead of the configured Some".into()),
+            },
+            LendOp::CallReturnsStr => {
+                let r = u.l_str(0);
+                live.push(LiveRef::Str { r, addr: r.as_ptr() as usize, v: "shared string".into() });
+            }
+            LendOp::MakeMut | LendOp::CallAnswerMut | LendOp::TouchMut => unreachable!(),
+        }
+        *steps_done += 1;
+        validate(&live, released).map_err(|e| format!("after step {i} ({op:?}): {e}"))?;
+    }
+    // repeated borrowed returns must point at the same stored value
+    let mut shared_addr: std::collections::HashMap<u32, usize> = Default::default();
+    for l in &live {
+        if let LiveRef::Val { addr, id, chain: false, .. } = l {
+            if let Some(prev) = shared_addr.insert(*id, *addr) {
+                if prev != *addr {
+                    return Err(format!("borrowed return {id} lent from two different addresses"));
+                }
+            }
+        }
+    }
+    Ok(chain_ids)
+}
+
+pub fn gen_lend_ops(rng: &mut Rng, n: usize) -> Vec<LendOp> {
+    (0..n)
+        .map(|_| {
+            if rng.chance(1, 10) {
+                match rng.below(3) {
+                    0 => LendOp::MakeMut,
+                    1 => LendOp::CallAnswerMut,
+                    _ => LendOp::TouchMut,
+                }
+            } else {
+                *rng.pick(&SHARED_OPS)
+            }
+        })
+        .collect()
+}
+
+/// Sequential C13 scenario on the original and one clone.
+pub fn run_c13_seq(rng: &mut Rng, n_ops: usize, steps_done: &mut u64) -> Result<(), String> {
+    toks::reset();
+    let (original, shared_ids) = lending_mock();
+    let clone = original.clone();
+    let mut insts = vec![original, clone];
+    let mut chain_ids: Vec<Vec<u32>> = vec![vec![], vec![]];
+    let mut released: HashSet<u32> = HashSet::new();
+
+    let plan: Vec<(usize, Vec<LendOp>)> = (0..rng.range(1, 4))
+        .map(|_| (rng.below(2), gen_lend_ops(rng, n_ops)))
+        .collect();
+    for (which, ops) in plan {
+        let mut rest: &[LendOp] = &ops;
+        while !rest.is_empty() {
+            let split = rest
+                .iter()
+                .position(|o| matches!(o, LendOp::MakeMut | LendOp::CallAnswerMut | LendOp::TouchMut))
+                .unwrap_or(rest.len());
+            let ids = shared_phase(&insts[which], &rest[..split], &released, steps_done)?;
+            chain_ids[which].extend(ids);
+            if split < rest.len() && rest[split] == LendOp::TouchMut {
+                // exclusive access, but nothing is lent mutably: every value lent so far must stay alive
+                let n = insts[which].l_touch(3);
+                if n != 42 {
+                    return Err(format!("l_touch returned {n} instead of 42"));
+                }
+                *steps_done += 1;
+                for id in &chain_ids[which] {
+                    if toks::drops(*id) != 0 {
+                        return Err(format!(
+                            "value {id} lent by instance {which} was dropped by a `&mut self` provided method that lends nothing"
+                        ));
+                    }
+                }
+                rest = &rest[split + 1..];
+            } else if split < rest.len() {
+                // exclusive access: earlier values of this instance may be released now
+                for id in chain_ids[which].drain(..) {
+                    released.insert(id);
+                }
+                let v: &mut Val = if rest[split] == LendOp::MakeMut {
+                    insts[which].make_mut(Val::new())
+                } else {
+                    insts[which].l_mut(0)
+                };
+                if !v.intact() {
+                    return Err("make_mut returned a damaged value".into());
+                }
+                let id = v.id;
+                v.payload[0] ^= 1; // the caller may mutate it
+                v.payload[0] ^= 1;
+                chain_ids[which].push(id);
+                *steps_done += 1;
+                rest = &rest[split + 1..];
+            } else {
+                break;
+            }
+        }
+    }
+    // nothing that is still lent may have been dropped
+    for (which, ids) in chain_ids.iter().enumerate() {
+        for id in ids {
+            if toks::drops(*id) != 0 {
+                return Err(format!("value {id} lent by instance {which} was dropped before the instance"));
+            }
+        }
+    }
+    // drop the clone first: only its own chain goes away
+    let clone = insts.pop().unwrap();
+    drop(clone);
+    for id in &chain_ids[1] {
+        if toks::drops(*id) != 1 {
+            return Err(format!("value {id} of the dropped clone has drop count {}", toks::drops(*id)));
+        }
+    }
+    for id in chain_ids[0].iter().chain(shared_ids.iter()) {
+        if toks::drops(*id) != 0 {
+            return Err(format!(
+                "value {id} (owned by the original / the shared state) was dropped when the clone went away"
+            ));
+        }
+    }
+    let original = insts.pop().unwrap();
+    drop(original);
+    for (id, i) in toks::all_infos().iter().enumerate() {
+        if i.drops != 1 {
+            return Err(format!("value {id} was dropped {} times in total", i.drops));
+        }
+    }
+    Ok(())
+}
+
+/// Threads lending concurrently from one shared instance.
+pub fn run_c13_threads(
+    rng: &mut Rng,
+    n_threads: usize,
+    per_thread: usize,
+    strategy: Option<Strategy>,
+    steps_done: &mut u64,
+) -> (Result<(), String>, crate::sched::ExecInfo) {
+    toks::reset();
+    let (original, _shared) = lending_mock();
+    let results: Vec<Mutex<Option<Result<Vec<(usize, u32)>, String>>>> =
+        (0..n_threads).map(|_| Mutex::new(None)).collect();
+    let plans: Vec<Vec<LendOp>> = (0..n_threads)
+        .map(|_| (0..per_thread).map(|_| *rng.pick(&SHARED_OPS)).collect())
+        .collect();
+    let barrier = std::sync::Barrier::new(n_threads);
+    let free = strategy.is_none();
+    let empty = HashSet::new();
+    let mut bodies: Vec<Box<dyn FnOnce() + Send + '_>> = vec![];
+    for tid in 0..n_threads {
+        let u = &original;
+        let plan = &plans[tid];
+        let slot = &results[tid];
+        let barrier = &barrier;
+        let empty = &empty;
+        bodies.push(Box::new(move || {
+            if free {
+                barrier.wait();
+            }
+            let mut steps = 0u64;
+            let r = guarded(|| shared_phase_collect(u, plan, empty, &mut steps));
+            *slot.lock().unwrap() = Some(match r {
+                Ok(r) => r,
+                Err(o) => Err(format!("panic {o:?}")),
+            });
+        }));
+    }
+    let exec = match strategy {
+        Some(s) => run_controlled(bodies, s),
+        None => {
+            std::thread::scope(|scope| {
+                for b in bodies {
+                    scope.spawn(b);
+                }
+            });
+            Default::default()
+        }
+    };
+    *steps_done += (n_threads * per_thread) as u64;
+    // after join: every chain value lent by any thread is distinct and alive
+    let mut addrs = HashSet::new();
+    let mut all_ids = vec![];
+    for slot in &results {
+        match slot.lock().unwrap().take() {
+            Some(Ok(list)) => {
+                for (addr, id) in list {
+                    if !addrs.insert(addr) {
+                        return (Err(format!("value {id} shares its address with another lent value")), exec);
+                    }
+                    if toks::drops(id) != 0 {
+                        return (Err(format!("value {id} dropped before its instance")), exec);
+                    }
+                    all_ids.push(id);
+                }
+            }
+            Some(Err(e)) => return (Err(e), exec),
+            None => return (Err("thread produced no result".into()), exec),
+        }
+    }
+    drop(original);
+    for (id, i) in toks::all_infos().iter().enumerate() {
+        if i.drops != 1 {
+            return (Err(format!("value {id} was dropped {} times in total", i.drops)), exec);
+        }
+    }
+    (Ok(()), exec)
+}
+
+/// like `shared_phase` but returns (address, id) of the chain values for the cross-thread check
+fn shared_phase_collect(
+    u: &Unimock,
+    ops: &[LendOp],
+    released: &HashSet<u32>,
+    steps: &mut u64,
+) -> Result<Vec<(usize, u32)>, String> {
+    let mut live: Vec<LiveRef<'_>> = vec![];
+    for (i, op) in ops.iter().enumerate() {
+        match op {
+            LendOp::MakeRefVal => {
+                let v = Val::new();
+                let id = v.id;
+                let r = u.make_ref(v);
+                live.push(LiveRef::Val { r, addr: r as *const Val as usize, id, chain: true });
+            }
+            LendOp::MakeRefU64 => {
+                let v = 0xB000_0000u64 + i as u64;
+                let r = u.make_ref(v);
+                live.push(LiveRef::U64 { r, addr: r as *const u64 as usize, v });
+            }
+            LendOp::MakeRefString => {
+                let v = format!("string #{i}");
+                let r: &String = u.make_ref(v.clone());
+                live.push(LiveRef::Str { r: r.as_str(), addr: r.as_ptr() as usize, v });
+            }
+            LendOp::CallAnswerRef => {
+                let r = u.l_ref(1);
+                live.push(LiveRef::Val { r, addr: r as *const Val as usize, id: r.id, chain: true });
+            }
+            LendOp::CallViaDefault => {
+                let r = u.l_default(1);
+                live.push(LiveRef::Val { r, addr: r as *const Val as usize, id: r.id, chain: true });
+            }
+            LendOp::CallReturnsRef => {
+                let r = u.l_ref(0);
+                live.push(LiveRef::Val { r, addr: r as *const Val as usize, id: r.id, chain: false });
+            }
+            LendOp::CallReturnsOpt => match u.l_opt(0) {
+                Some(r) => live.push(LiveRef::Val { r, addr: r as *const Val as usize, id: r.id, chain: false }),
+                None => return Err("l_opt returned None".into()),
+            },
+            LendOp::CallReturnsStr => {
+                let r = u.l_str(0);
+                live.push(LiveRef::Str { r, addr: r.as_ptr() as usize, v: "shared string".into() });
+            }
+            _ => unreachable!(),
+        }
+        *steps += 1;
+        validate(&live, released).map_err(|e| format!("after step {i} ({op:?}): {e}"))?;
+    }
+    Ok(live
+        .iter()
+        .filter_map(|l| match l {
+            LiveRef::Val { addr, id, chain: true, .. } => Some((*addr, *id)),
+            _ => None,
+        })
+        .collect())
+}
+
+/// A very long chain must be dropped without recursion.
+pub fn run_c13_bigchain(n: usize) -> Result<(), String> {
+    toks::reset();
+    let u = Unimock::new(()).no_verify_in_drop();
+    let first = u.make_ref(Val::new());
+    for _ in 1..n {
+        u.make_ref(Val::new());
+    }
+    if !first.intact() || first.id != 0 {
+        return Err("first value damaged after many pushes".into());
+    }
+    drop(u);
+    let infos = toks::all_infos();
+    if infos.len() != n || infos.iter().any(|i| i.drops != 1) {
+        return Err(format!("{} of {n} values dropped exactly once", infos.iter().filter(|i| i.drops == 1).count()));
+    }
+    Ok(())
+}
+
+// ------------------------------------------------------------------------------------------------
+// worker entry points
+
+fn emit(what: &str, seed: u64, worker: u64, index: u64, d: &Discrepancy, case: &str, schedule: &str) {
+    let line = Obj::new()
+        .str("what", what)
+        .raw("tags", arr(d.props.iter().map(|p| esc(p))))
+        .num("seed", seed)
+        .num("worker", worker)
+        .num("index", index)
+        .str("at", &d.at)
+        .str("expected", &d.expected)
+        .str("observed", &d.observed)
+        .str("case", case)
+        .str("schedule", schedule)
+        .build();
+    println!("VIOLATION_CASE {line}");
+}
+
+fn sched_str(t: &[u8]) -> String {
+    t.iter().map(|x| x.to_string()).collect::<Vec<_>>().join("")
+}
+
+pub fn run_child(what: &str, args: &[String], acc: &mut Acc) -> bool {
+    let seed: u64 = arg(args, "--seed").unwrap_or("1".into()).parse().unwrap();
+    let worker: u64 = arg(args, "--worker").unwrap_or("0".into()).parse().unwrap();
+    let cases: u64 = arg(args, "--cases").unwrap_or("1".into()).parse().unwrap();
+    match what {
+        "c12" => {
+            install_hook();
+            let dfs_cap: usize = arg(args, "--dfs-cap").unwrap_or("2000".into()).parse().unwrap();
+            for index in 0..cases {
+                let mut rng = Rng::new(mix3(seed ^ 0xC12, worker, index));
+                let case = gen_c12(&mut rng, 4, if index % 2 == 0 { 2 } else { 3 });
+                acc.cases += 1;
+                acc.case_hashes.insert(case.hash64());
+                if acc.samples.len() < 3 && index % 5 == 2 {
+                    acc.samples.push(format!("{case}"));
+                }
+                let total: usize = case.threads.iter().map(|t| t.1).sum();
+                acc.bump(&format!("requests_{}", total.min(7)));
+                acc.bump(&format!("shape_{:?}", case.shape));
+                acc.bump(&format!("threads_{}", case.threads.len()));
+                let mut judge = |strategy: Strategy, acc: &mut Acc| -> Vec<(u8, u8)> {
+                    let trace = run_c12(&case, Some(strategy));
+                    acc.executions += 1;
+                    acc.schedules.insert(fnv(&trace.exec.trace) ^ case.hash64());
+                    for (f, l, k) in &trace.exec.sites {
+                        let short = f.rsplit("/src/").next().unwrap_or(f);
+                        acc.sites.insert(format!("{short}:{l}:{k}"));
+                    }
+                    for (_, r) in &trace.reqs {
+                        match r {
+                            Req::Delivered(_) => acc.bump("req_delivered"),
+                            Req::Panic(_) => acc.bump("req_panic"),
+                            Req::Other(_) => acc.bump("req_other"),
+                        }
+                    }
+                    if trace.exec.deadlock {
+                        if acc.inconclusive.len() < 5 {
+                            acc.inconclusive.push(format!("c12 case {worker}:{index}: scheduler deadlock/watchdog"));
+                        }
+                    } else if let Some(d) = check_c12(&case, &trace) {
+                        acc.violations += 1;
+                        if acc.violations <= 5 {
+                            emit("c12", seed, worker, index, &d, &format!("{case}"), &sched_str(&trace.exec.trace));
+                        }
+                    }
+                    trace.exec.choices
+                };
+                if total <= 4 {
+                    let mut prefix = vec![];
+                    let mut n = 0;
+                    let mut exhausted = false;
+                    loop {
+                        let choices = judge(Strategy::Dfs { prefix: prefix.clone() }, acc);
+                        n += 1;
+                        match next_dfs_prefix(&choices) {
+                            Some(p) => prefix = p,
+                            None => {
+                                exhausted = true;
+                                break;
+                            }
+                        }
+                        if n >= dfs_cap {
+                            break;
+                        }
+                    }
+                    if exhausted {
+                        acc.exhaustive_cases += 1;
+                        acc.exhaustive_schedules += n as u64;
+                    }
+                } else {
+                    for e in 0..24 {
+                        let s = if e % 2 == 0 {
+                            Strategy::Random(Rng::new(rng.next_u64()))
+                        } else {
+                            pct_strategy(&mut rng, case.threads.len(), 1 + e % 3, 6 * total)
+                        };
+                        judge(s, acc);
+                    }
+                }
+            }
+            true
+        }
+        "c12-stress" => {
+            let reps: usize = arg(args, "--reps").unwrap_or("50".into()).parse().unwrap();
+            for index in 0..cases {
+                let mut rng = Rng::new(mix3(seed ^ 0x12E55, worker, index));
+                let mut case = gen_c12(&mut rng, 8, 4);
+                // many threads racing for the same value
+                while case.threads.len() < 6 {
+                    case.threads.push((rng.chance(1, 2), 1 + rng.below(3), rng.chance(1, 2)));
+                }
+                acc.cases += 1;
+                acc.case_hashes.insert(case.hash64());
+                if acc.samples.len() < 2 {
+                    acc.samples.push(format!("{case}"));
+                }
+                for _ in 0..reps {
+                    let trace = run_c12(&case, None);
+                    acc.executions += 1;
+                    acc.add("stress_requests", trace.reqs.len() as u64);
+                    if let Some(d) = check_c12(&case, &trace) {
+                        acc.violations += 1;
+                        if acc.violations <= 5 {
+                            emit("c12-stress", seed, worker, index, &d, &format!("{case}"), "free-running");
+                        }
+                        break;
+                    }
+                }
+            }
+            true
+        }
+        "c13" => {
+            let n_ops: usize = arg(args, "--ops").unwrap_or("40".into()).parse().unwrap();
+            for index in 0..cases {
+                let mut rng = Rng::new(mix3(seed ^ 0xC13, worker, index));
+                acc.cases += 1;
+                acc.case_hashes.insert(mix3(seed, worker, index));
+                let mut steps = 0;
+                let r = guarded(|| run_c13_seq(&mut rng, n_ops, &mut steps));
+                acc.executions += 1;
+                acc.add("lend_steps", steps);
+                let err = match r {
+                    Ok(Ok(())) => None,
+                    Ok(Err(e)) => Some(e),
+                    Err(o) => Some(format!("panic: {o:?}")),
+                };
+                if let Some(e) = err {
+                    acc.violations += 1;
+                    if acc.violations <= 5 {
+                        let d = Discrepancy {
+                            props: vec!["C13"],
+                            at: "sequence of make_ref / make_mut / borrowed-return calls".into(),
+                            expected: "every lent reference keeps its address and contents; values dropped once, not before their owner".into(),
+                            observed: e,
+                        };
+                        emit("c13", seed, worker, index, &d, &format!("seq case {worker}:{index} ops<={n_ops}"), "sequential");
+                    }
+                }
+            }
+            if acc.samples.is_empty() {
+                let mut rng = Rng::new(mix3(seed ^ 0xC13, worker, 0));
+                acc.samples.push(format!("ops of one phase: {:?}", gen_lend_ops(&mut rng, 12)));
+            }
+            true
+        }
+        "c13-threads" | "c13-threads-stress" => {
+            let controlled = what == "c13-threads";
+            if controlled {
+                install_hook();
+            }
+            let per_thread: usize = arg(args, "--ops").unwrap_or(if controlled { "3" } else { "200" }.into()).parse().unwrap();
+            let max_threads: usize = arg(args, "--threads").unwrap_or(if controlled { "3" } else { "8" }.into()).parse().unwrap();
+            for index in 0..cases {
+                let mut rng = Rng::new(mix3(seed ^ 0x7C13, worker, index));
+                let n_threads = rng.range(2, max_threads);
+                acc.cases += 1;
+                acc.case_hashes.insert(mix3(seed ^ 9, worker, index));
+                let execs = if controlled { 40 } else { 5 };
+                for e in 0..execs {
+                    let mut case_rng = Rng::new(mix3(seed ^ 0x7C13, worker, index) ^ 0x55);
+                    let strategy = if controlled {
+                        Some(if e % 2 == 0 {
+                            Strategy::Random(Rng::new(rng.next_u64()))
+                        } else {
+                            pct_strategy(&mut rng, n_threads, 1 + e % 3, 10 * per_thread)
+                        })
+                    } else {
+                        None
+                    };
+                    let mut steps = 0;
+                    let (r, exec) = run_c13_threads(&mut case_rng, n_threads, per_thread, strategy, &mut steps);
+                    acc.executions += 1;
+                    acc.add("lend_steps", steps);
+                    acc.schedules.insert(fnv(&exec.trace) ^ mix3(seed, worker, index));
+                    for (f, l, k) in &exec.sites {
+                        let short = f.rsplit("/src/").next().unwrap_or(f);
+                        acc.sites.insert(format!("{short}:{l}:{k}"));
+                    }
+                    if exec.deadlock {
+                        if acc.inconclusive.len() < 5 {
+                            acc.inconclusive.push(format!("c13 case {worker}:{index}: scheduler deadlock/watchdog"));
+                        }
+                        continue;
+                    }
+                    if let Err(e) = r {
+                        acc.violations += 1;
+                        if acc.violations <= 5 {
+                            let d = Discrepancy {
+                                props: vec!["C13"],
+                                at: format!("{n_threads} threads lending from one shared instance"),
+                                expected: "every lent reference keeps its address and contents; all lent values distinct; dropped once".into(),
+                                observed: e,
+                            };
+                            emit(what, seed, worker, index, &d, &format!("threads case {worker}:{index}"), &sched_str(&exec.trace));
+                        }
+                        break;
+                    }
+                }
+            }
+            if acc.samples.is_empty() {
+                acc.samples.push(format!("{max_threads} threads x {per_thread} lending operations drawn from {SHARED_OPS:?}"));
+            }
+            true
+        }
+        "c13-bigchain" => {
+            let n: usize = arg(args, "--len").unwrap_or("100000".into()).parse().unwrap();
+            acc.cases += 1;
+            acc.executions += 1;
+            acc.case_hashes.insert(n as u64);
+            acc.add("chain_length", n as u64);
+            if let Err(e) = run_c13_bigchain(n) {
+                acc.violations += 1;
+                let d = Discrepancy {
+                    props: vec!["C13"],
+                    at: format!("dropping an instance that lent {n} values"),
+                    expected: "all values dropped exactly once".into(),
+                    observed: e,
+                };
+                emit(what, seed, worker, 0, &d, &format!("chain of {n}"), "sequential");
+            }
+            true
+        }
+        _ => false,
+    }
 }
